@@ -94,8 +94,8 @@ def explore(ctx, scale=1.0):
             except Exception as ex:
                 ctx.count(f"first pass output unparseable ({type(ex).__name__}) — C01/C06 territory")
                 continue
-            if not o["separate_complex_types"] and len(rl_cases) < (4000 if ctx.thorough else 500):
-                rl_cases.append((src[:200], gen.plain_dict(d0), gen.plain_dict(d1)))
+            if len(rl_cases) < (4000 if ctx.thorough else 600):
+                rl_cases.append((src[:200], gen.plain_dict(d0), gen.plain_dict(d1), o["separate_complex_types"]))
             r2 = ppcommon.real_pprint(d1, o)
             if r2 != r1:
                 ctx.violation("not-idempotent", "formatting already formatted output changes it: dumps(loads(t)) != t for t = dumps(…)", dict(rep, first=t[:3000], second=str(r2.get("ok", r2))[:3000]))
